@@ -540,6 +540,9 @@ func specWriteCas(pre *Doc, o *Op, lo, hi uint32, newRev uint64, maxDoc int) Exp
 	}
 	if o.BodyNil { // only reachable through Update(delete); judged leniently (§3.6, §3.16)
 		if pre.Live() {
+			if o.AddOnly {
+				return fail("body", "keyexists", "casmismatch") // insert-only, and there is a body
+			}
 			if o.Cas != pre.Cas {
 				return fail("cas", "casmismatch", "missing", "keyexists")
 			}
@@ -551,7 +554,7 @@ func specWriteCas(pre *Doc, o *Op, lo, hi uint32, newRev uint64, maxDoc int) Exp
 		ex := mk(nil, sysOnly(pre.X))
 		ex.Accept, ex.Why = 0, "exists"
 		ex.DCUserX, ex.DCExp, ex.DCX = true, true, true
-		if pre.Present && o.Cas != pre.Cas && o.Cas != 0 {
+		if pre.Present && o.Cas != pre.Cas && o.Cas != 0 && !o.AddOnly { // (AddOnly ignores the CAS)
 			return fail("cas")
 		}
 		return ex
